@@ -495,11 +495,9 @@ bool encode_array::shift(size_t len)
 		if ((max = _d.length()) <= len) {
 			return false;
 		}
-		uint8_t *d = reinterpret_cast<uint8_t *>(_d.base());
-		size_t shift = max - len;
-		memmove(d, d + shift, len);
-		_d.set(len);
-		return true;
+		// remove consumed data in front of active segment
+		buffer *b = mpt_array_reserve(&_d, max, 0);
+		return b && mpt_buffer_cut(b, 0, max - len) >= 0;
 	}
 	// consume terminated data
 	if (len > _state.done) {
